@@ -143,6 +143,24 @@ func ruleDispatchOnce(p *Prog, r *Out) {
 	}
 }
 
+// ---------------------------------------------------------------- RST_STREAM calls
+
+// resetCall: is c a call that sends RST_STREAM on a stream of the server? It
+// answers the text of the stream-id expression, the code argument, and whether
+// the call goes through resetStream (which also records that a reset was sent).
+func (p *Prog) resetCall(c *ast.CallExpr) (id string, code ast.Expr, recorded bool, ok bool) {
+	if len(c.Args) != 2 {
+		return "", nil, false, false
+	}
+	switch p.calleeOf(c) {
+	case "(*serverConn).writeReset":
+		return squash(p.text(c.Args[0])), c.Args[1], false, true
+	case "(*serverConn).resetStream":
+		return squash(p.text(c.Args[0])) + ".ID()", c.Args[1], true, true
+	}
+	return "", nil, false, false
+}
+
 // ---------------------------------------------------------------- decode loops
 
 type decodeLoop struct {
@@ -201,6 +219,56 @@ func ruleHdrCarryover(p *Prog, r *Out) {
 	for _, dl := range loops {
 		r.fn(dl.fn)
 		key := dl.fn + " decode loop"
+		if dl.fn == "(*serverConn).skipFields" {
+			// the draining loop hands the cut field and the position back to its
+			// callers instead of keeping them itself: the loop is judged by
+			// skipFieldsOK, and every caller has to keep both results
+			okLoop, why := p.skipFieldsOK()
+			kept, sites := true, 0
+			for _, f := range p.Files {
+				pm := p.parentMaps()[f]
+				inspectCalls(f, func(c *ast.CallExpr) {
+					if p.calleeOf(c) != "(*serverConn).skipFields" {
+						return
+					}
+					sites++
+					as, ok := pm[c].(*ast.AssignStmt)
+					if !ok || len(as.Lhs) != 3 {
+						kept = false
+						return
+					}
+					carryV, fieldsV := p.text(as.Lhs[0]), p.text(as.Lhs[1])
+					fdn := p.decl(enclosingFunc(pm, c))
+					cStored, fStored := false, false
+					if fdn != nil {
+						ast.Inspect(fdn.Body, func(n ast.Node) bool {
+							a2, ok := n.(*ast.AssignStmt)
+							if !ok || len(a2.Lhs) != 1 || len(a2.Rhs) != 1 || a2.Pos() < as.Pos() {
+								return true
+							}
+							if _, isSel := a2.Lhs[0].(*ast.SelectorExpr); !isSel {
+								return true
+							}
+							if ap, ok := a2.Rhs[0].(*ast.CallExpr); ok && p.calleeOf(ap) == "builtin.append" && len(ap.Args) == 2 && ap.Ellipsis != token.NoPos && p.text(ap.Args[1]) == carryV {
+								cStored = true
+							}
+							if p.text(a2.Rhs[0]) == fieldsV {
+								fStored = true
+							}
+							return true
+						})
+					}
+					if !cStored || !fStored {
+						kept = false
+					}
+				})
+			}
+			r.check(okLoop && kept && sites >= 2, key+" carries a cut field over", p.pos(dl.loop.Pos()), fmt.Sprintf("cut field handed back to %d callers, each of which keeps it", sites),
+				fmt.Sprintf("%s hands a cut field back to its callers, but the loop is no longer exact or a caller drops it (callers keeping both results: %v of %d sites; %s)", dl.fn, kept, sites, strings.Join(why, "; ")))
+			r.check(okLoop && kept, key+" block position survives frames", p.pos(dl.call.Pos()), "position is a parameter, advanced per field and handed back", fmt.Sprintf("%s no longer takes the block position from its caller, advances it per field and hands it back for the next fragment (%s)", dl.fn, strings.Join(why, "; ")))
+			r.check(okLoop, key+" passes block position", p.pos(dl.call.Pos()), "decoder told whether this is the start of a block", fmt.Sprintf("%s no longer tells the decoder where in the block it is (%s)", dl.fn, strings.Join(why, "; ")))
+			continue
+		}
 		// (a) saved cursor: first statement(s) of the loop body before the call: X := cursor
 		saved := ""
 		for _, s := range dl.loop.Body.List {
@@ -332,17 +400,30 @@ func ruleNoStreamErrInLoop(p *Prog, r *Out) {
 			if p.text(e) == "nil" {
 				return true
 			}
-			class, _, isCall := p.errorCall(e)
-			label := p.text(e)
-			if c, ok := e.(*ast.CallExpr); ok && len(c.Args) >= 2 {
-				if v := p.constOf(c.Args[1]); v != nil {
-					label = strings.Trim(v.ExactString(), "\"")
-				} else if inner, ok := c.Args[1].(*ast.CallExpr); ok && len(inner.Args) > 0 {
-					if v := p.constOf(inner.Args[0]); v != nil {
+			labelOf := func(e ast.Expr) string {
+				label := p.text(e)
+				if c, ok := e.(*ast.CallExpr); ok && len(c.Args) >= 2 {
+					if v := p.constOf(c.Args[1]); v != nil {
 						label = strings.Trim(v.ExactString(), "\"")
+					} else if inner, ok := c.Args[1].(*ast.CallExpr); ok && len(inner.Args) > 0 {
+						if v := p.constOf(inner.Args[0]); v != nil {
+							label = strings.Trim(v.ExactString(), "\"")
+						}
 					}
 				}
+				return label
 			}
+			// a rejection that first runs the rest of the fragment through the
+			// decoder leaves nothing undecoded behind
+			if c, ok := e.(*ast.CallExpr); ok && p.calleeOf(c) == "(*serverConn).rejectBlock" && len(c.Args) == 4 {
+				drains, why := p.rejectBlockOK()
+				cursor := p.text(c.Args[2]) == dl.cursor
+				r.check(drains && cursor, dl.fn+" return#"+labelOf(c.Args[3]), p.pos(rs.Pos()), "the rest of the fragment is decoded first (rejectBlock)",
+					fmt.Sprintf("%s rejects the request (%s) through rejectBlock, but that no longer decodes the rest of the fragment (handed the loop's cursor: %v; %s): the shared HPACK dynamic table misses what followed the offending field", dl.fn, labelOf(c.Args[3]), cursor, strings.Join(why, "; ")))
+				return true
+			}
+			class, _, isCall := p.errorCall(e)
+			label := labelOf(e)
 			if !isCall {
 				class = "Foreign"
 				if id, ok := e.(*ast.Ident); ok {
@@ -921,6 +1002,21 @@ func ruleClosedRing(p *Prog, r *Out) {
 	// map insert exists and happens once
 	ins := 0
 	ast.Inspect(lit.Body, func(n ast.Node) bool {
+		// an update under `if _, ok := closedStrms[id]; ok` rewrites an entry
+		// that exists and does not grow the memory
+		if ifs, ok := n.(*ast.IfStmt); ok && ifs.Init != nil && strings.Contains(squash(p.text(ifs.Init)), ":=closedStrms[") && p.text(ifs.Cond) == "ok" {
+			if ifs.Else != nil {
+				ast.Inspect(ifs.Else, func(m ast.Node) bool {
+					if as, ok := m.(*ast.AssignStmt); ok && len(as.Lhs) == 1 {
+						if ix, ok := as.Lhs[0].(*ast.IndexExpr); ok && p.text(ix.X) == "closedStrms" {
+							ins++
+						}
+					}
+					return true
+				})
+			}
+			return false
+		}
 		if as, ok := n.(*ast.AssignStmt); ok && len(as.Lhs) == 1 {
 			if ix, ok := as.Lhs[0].(*ast.IndexExpr); ok && p.text(ix.X) == "closedStrms" {
 				ins++
